@@ -15,7 +15,7 @@ except ImportError:
     z3 = None
 
 from contracts import registry
-from pyvc.unit import Unit, U, values_eq
+from pyvc.unit import Unit, U, Contract, values_eq
 from pyvc.interp import PyRaise, Obj
 from pyvc import sym, bytesmodel as BM
 from pyvc.sym import land, lor, lnot, ite, implies, cmp
@@ -234,11 +234,143 @@ def conv_units():
     return out
 
 
+def add_unit(k):
+    """MemoryControllerHub.add_memory / from_memory_list: registering a device appends, after the k existing controllers (which
+    stay the same objects in the same order - first-match priority), a controller [beginning, end) backed by a zero-filled
+    RAM of exactly end - beginning bytes: the representation the access units start from."""
+    m = registry.mods()
+    H = m.memory_controller_hub
+    uid = 'C16/hub.add_memory[k=%d]' % k
+
+    def symbolic(eng):
+        BM.install()
+        hub, devs = build_hub(eng, k)
+        beg = eng.fresh_int('beginning', 40)
+        end = eng.fresh_int('end', 41)
+        eng.assume(cmp('<=', beg, end))
+        if not eng.prefix:
+            eng.cover('hub state satisfiable')
+        old = list(hub.attrs['memories'])
+        lst = hub.attrs['memories']
+        hub0 = dict(hub.attrs)
+        try:
+            eng.call(H.MemoryControllerHub.add_memory, [hub, 'RAM', beg, end])
+        except PyRaise as e:
+            eng.oblige('safe.host', 'add_memory raises %s' % e.exc.cls.__name__, False, detail=str(e.exc.attrs.get('args')))
+            return
+        own_frame(eng, 'hub add_memory')
+        now = hub.attrs['memories']
+        ok = now is lst and len(now) == k + 1 and all(x is y for x, y in zip(now, old))
+        eng.oblige('post', 'the new controller is appended: the %d existing controllers keep their identity and order' % k, ok)
+        eng.oblige('frame.hub', 'registering a device changes no other field of the hub', all(v is hub0.get(n) for n, v in hub.attrs.items()) and len(hub.attrs) == len(hub0))
+        if not ok:
+            return
+        mc = now[-1]
+        good = isinstance(mc, Obj) and mc.cls is H.MemoryController
+        eng.oblige('post', 'the appended entry is a MemoryController', good)
+        if not good:
+            return
+        eng.oblige_all('post', 'the controller covers [beginning, end)', [('beginning', values_eq(mc.attrs['beginning'], beg)), ('end', values_eq(mc.attrs['end'], end))])
+        ram = mc.attrs['mem']
+        good = isinstance(ram, Obj) and ram.cls is m.memory_types.RAM and isinstance(ram.attrs.get('memory_array'), BM.ByteArr)
+        eng.oblige('post', 'the device is a RAM backed by a bytearray', good)
+        if not good:
+            return
+        ba = ram.attrs['memory_array']
+        probe = z3.BitVec('probe_index', BM.AW)
+        eng.inputs['probe_index'] = probe
+        eng.all_inputs['probe_index'] = probe
+        eng.oblige_all('inv.len', 'the backing store has exactly end - beginning bytes, all zero', [
+            ('size', values_eq(ram.attrs['size'], sym.sub(end, beg))), ('len', values_eq(ba.length, sym.sub(end, beg))),
+            ('zero', sym.SymBool(z3.Select(ba.arr, probe) == 0))])
+        for (b0, s0, ba0, ram0, mc0) in devs:
+            eng.oblige_all('frame', 'existing devices are untouched', [
+                ('len', values_eq(ba0.length, s0)), ('bytes', sym.SymBool(z3.Select(ba0.arr, probe) == z3.Select(ba0.init_arr, probe))),
+                ('beginning', values_eq(mc0.attrs['beginning'], b0)), ('end', values_eq(mc0.attrs['end'], sym.add(b0, s0))), ('mem', mc0.attrs['mem'] is ram0)])
+
+    def replay(inputs, ob):
+        hub = H.MemoryControllerHub()
+        olds = []
+        for i in range(k):
+            b, sz = inputs.get('dev%d.beginning' % i, 0), min(inputs.get('dev%d.size' % i, 0), 1 << 16)
+            try:
+                hub.add_memory('RAM', b, b + sz)
+            except Exception as ex:      # noqa
+                return True, 'add_memory(RAM, %s, %s) raised %s: %s' % (hex(b), hex(b + sz), type(ex).__name__, ex)
+            olds.append(hub.memories[-1])
+        b, e = inputs.get('beginning', 0), inputs.get('end', 0)
+        e = min(e, b + (1 << 16))
+        try:
+            hub.add_memory('RAM', b, e)
+        except Exception as ex:      # noqa
+            return True, 'add_memory(RAM, %s, %s) raised %s: %s' % (hex(b), hex(e), type(ex).__name__, ex)
+        ms = hub.memories
+        bad = len(ms) != k + 1 or any(x is not y for x, y in zip(ms, olds))
+        text = 'add_memory(RAM, %s, %s) on %d devices: %d controllers' % (hex(b), hex(e), k, len(ms))
+        if not bad:
+            mc = ms[-1]
+            text += '; appended [%s, %s) backing store %d bytes' % (hex(mc.beginning), hex(mc.end), len(mc.mem.memory_array))
+            bad = mc.beginning != b or mc.end != e or len(mc.mem.memory_array) != e - b or mc.mem.size != e - b or any(mc.mem.memory_array)
+        return bad, text
+    return Unit(uid, ['C16', 'C13', 'C02', 'C03'], symbolic, replay, {'contracts': {}, 'logic': 'QF_AUFBV'},
+                meta={'function': '%s.MemoryControllerHub.add_memory' % H.__name__, 'also': ALSO_MEM})
+
+
+def from_list_unit():
+    """from_memory_list == add_memory for each entry, in list order, on a fresh hub"""
+    m = registry.mods()
+    H = m.memory_controller_hub
+    uid = 'C16/hub.from_memory_list'
+
+    def symbolic(eng):
+        BM.install()
+        ents = []
+        for i in range(3):
+            b = eng.fresh_int('e%d.beginning' % i, 40)
+            e = eng.fresh_int('e%d.end' % i, 41)
+            eng.assume(cmp('<=', b, e))
+            ents.append({'mem_type': 'RAM', 'beginning': b, 'end': e})
+        calls = eng.register([])
+
+        def add(e_, hub_, mem_type, beginning, end):
+            calls.append((hub_, mem_type, beginning, end))
+        eng.contracts = {H.MemoryControllerHub.add_memory: Contract(H.MemoryControllerHub.add_memory, add, engine=True)}
+        try:
+            hub = eng.call(H.MemoryControllerHub.from_memory_list, [eng.register(list(ents))])
+        except PyRaise as e:
+            eng.oblige('safe.host', 'from_memory_list raises %s' % e.exc.cls.__name__, False, detail=str(e.exc.attrs.get('args')))
+            return
+        own_frame(eng, 'hub from_memory_list')
+        ok = isinstance(hub, Obj) and hub.cls is H.MemoryControllerHub and len(calls) == 3 and all(c[0] is hub for c in calls)
+        eng.oblige('post', 'a new hub receives one add_memory per entry', ok)
+        if ok:
+            eng.oblige_all('post', 'entries are registered in list order with their own type and bounds', [
+                ('e%d' % i, land(c[1] == 'RAM', values_eq(c[2], ents[i]['beginning']), values_eq(c[3], ents[i]['end']))) for i, c in enumerate(calls)])
+
+    def replay(inputs, ob):
+        ents = []
+        for i in range(3):
+            b = inputs.get('e%d.beginning' % i, 0)
+            e = min(inputs.get('e%d.end' % i, 0), b + (1 << 12))
+            ents.append({'mem_type': 'RAM', 'beginning': b, 'end': e})
+        try:
+            hub = H.MemoryControllerHub.from_memory_list(ents)
+        except Exception as ex:     # noqa
+            return True, 'from_memory_list raised %s: %s' % (type(ex).__name__, ex)
+        got = [(mc.beginning, mc.end) for mc in hub.memories]
+        want = [(e['beginning'], e['end']) for e in ents]
+        return got != want, 'from_memory_list: controllers %r, entries %r' % (got, want)
+    return Unit(uid, ['C16', 'C13', 'C02', 'C03'], symbolic, replay, {'contracts': {}, 'logic': 'QF_AUFBV'},
+                meta={'function': '%s.MemoryControllerHub.from_memory_list' % H.__name__, 'also': ALSO_MEM})
+
+
 def units(tier):
     out = conv_units()
+    out.append(from_list_unit())
     ks = range(0, 6) if tier == 'thorough' else range(0, 4)
     for k in ks:
         for size in (1, 2, 4, 8):
             out.append(hub_unit('read', k, size))
             out.append(hub_unit('write', k, size))
+        out.append(add_unit(k))
     return out
